@@ -39,11 +39,12 @@ class Gen:
         return out
 
 
-ACTS = ["tanh", "tanh", "relu", "sigmoid", "sin", ["relun", 2], ["adaptive", 1.5, 0.5, "tanh"], ["adaptive", 0.75, 2.0, "sin"]]
+ACTS = ["tanh", "tanh", "relu", "sigmoid", "sin", ["relun", 2], ["relun", 3], ["adaptive", 1.5, 0.5, "tanh"],
+        ["adaptive", 0.75, 2.0, "sin"], ["adaptive", 2.0, 1.0, ["relun", 2]]]
 
 
-def gen_space(rng, nmin=1, nmax=3):
-    vs = rng.sample(NAMES, rng.randint(nmin, nmax))
+def gen_space(rng):
+    vs = rng.sample(NAMES, rng.choice([1, 2, 2, 3, 3, 4, 4, 5]))
     return [[v, rng.choice([1, 1, 2, 2, 3])] for v in vs]
 
 
@@ -69,11 +70,15 @@ def gen_leaf(G, inS, outS=None, archs=None):
             else:
                 dom.append(dict(var=v, kind="sphere", c=[rng.randint(-128, 128) for _ in range(3)], r=rng.randint(16, 192)))
         return dict(arch="norm", **{"in": inS, "out": inS}, domain=dom)
-    outS = outS or G.fresh(rng.choice([1, 1, 2]))
+    outS = outS or G.fresh(rng.choice([1, 1, 2, 2, 3, 4]))
     nh = rng.choice([1, 1, 2, 3])
     spec = dict(arch=arch, **{"in": inS, "out": outS})
+    if arch in ("fcn", "harm", "qres", "poly") and rng.random() < 0.4:   # non-default Xavier gains: one number or one per hidden layer (only changes the initial weights)
+        spec["gains"] = rng.choice([1.0, 0.5, 2.5])
     if arch in ("fcn", "harm", "qres"):
         spec["hidden"] = [rng.randint(1, 4) for _ in range(nh)]
+        if "gains" in spec and rng.random() < 0.5:
+            spec["gains"] = [rng.choice([1.0, 0.5, 2.5]) for _ in range(nh)]
         spec["acts"] = [rng.choice(ACTS) for _ in range(nh)] if rng.random() < 0.5 else rng.choice(ACTS)
         if arch == "harm":
             spec["minf"] = rng.choice([0, 0, 1])
@@ -84,6 +89,8 @@ def gen_leaf(G, inS, outS=None, archs=None):
         w = rng.randint(1, 4)
         spec["hidden"] = [w] * rng.choice([1, 2, 3]) if spec["res"] else [rng.randint(1, 4) for _ in range(nh)]
         spec["acts"] = rng.choice(["tanh", "relu", "sigmoid", "sin"])
+        if "gains" in spec and rng.random() < 0.5:
+            spec["gains"] = [spec["gains"]] * len(spec["hidden"])
     else:
         spec["width"] = rng.randint(1, 4)
         spec["depth"] = rng.randint(0, 2)
@@ -162,10 +169,11 @@ def gen_case(rng, idx):
     shapes = [s for s in ([n], [1, n], [n, 1], [2, n // 2], [n // 2, 2], [2, n // 4, 2], [3, n // 3], [n // 4, 2, 2]) if _prod(s) == n and len(s) > 1]
     return dict(idx=idx, spec=spec, seed=rng.randrange(2 ** 31), n=n, dims=dims, coords=coords,
                 perm=perm, perm2=rng.sample(names, len(names)),
+                perms_extra=[rng.sample(names, len(names)) for _ in range(5 if len(names) >= 3 else 0)],
                 shape2=rng.choice(shapes) if shapes else [1, n],
                 shape_own_order=rng.random() < 0.5,
                 rowperm=rng.sample(range(n), n), sub=sorted(rng.sample(range(n), rng.randint(0, n))),
-                drop=rng.choice(names), fresh="q" + rng.choice(names),
+                drop=rng.choice(names), fresh="q" + rng.choice(names), training=rng.random() < 0.5,
                 swap_seed=rng.randrange(1000))
 
 
@@ -250,14 +258,16 @@ def build(tp, torch, spec):
     if a in ("fcn", "harm", "qres"):
         acts = spec["acts"]
         acts = act_module(tp, torch, acts) if _is_act(acts) else [act_module(tp, torch, x) for x in acts]
+        kw = dict(xavier_gains=spec["gains"]) if "gains" in spec else {}
         if a == "fcn":
-            return tp.models.FCN(I, O, hidden=tuple(spec["hidden"]), activations=acts)
+            return tp.models.FCN(I, O, hidden=tuple(spec["hidden"]), activations=acts, **kw)
         if a == "qres":
-            return tp.models.QRES(I, O, hidden=tuple(spec["hidden"]), activations=acts)
-        return tp.models.Harmonic_FCN(I, O, max_frequenz=spec["maxf"], min_frequenz=spec["minf"], hidden=tuple(spec["hidden"]), activations=acts)
+            return tp.models.QRES(I, O, hidden=tuple(spec["hidden"]), activations=acts, **kw)
+        return tp.models.Harmonic_FCN(I, O, max_frequenz=spec["maxf"], min_frequenz=spec["minf"], hidden=tuple(spec["hidden"]), activations=acts, **kw)
     if a == "poly":
         return tp.models.Polynomial_FCN(I, O, polynomial_degree=spec["deg"], hidden=tuple(spec["hidden"]),
-                                        activation=act_module(tp, torch, spec["acts"]), res_connection=spec["res"])
+                                        activation=act_module(tp, torch, spec["acts"]), res_connection=spec["res"],
+                                        **(dict(xavier_gains=spec["gains"]) if "gains" in spec else {}))
     return tp.models.DeepRitzNet(I, O, width=spec["width"], depth=spec["depth"])
 
 
@@ -572,7 +582,8 @@ def run_case(case):
         cr.lines.append("spaces " + skeleton(spec))
         cr.tags.append(("construct", None))
         return cr
-    model.eval()
+    model.train(bool(case.get("training", False)))   # Lightning: fit runs in training mode, validate/test/predict in eval mode
+    cr.counts.append("mode:" + ("train" if case.get("training") else "eval"))
     inS = declared_in(model)
     outS = [[v, int(d)] for v, d in model.output_space.items()]
     try:
@@ -636,6 +647,14 @@ def run_case(case):
             if not same_out(base, o, slack=slack):
                 cr.fails.append(("same data with the variables in another order gives another output",
                                  dict(desc, order_a=P["own"][0], order_b=P["perm"][0], coords=_coords(case), out_a=base.brief(), out_b=o.brief())))
+            # more orders (implementation only): with >= 4 variables most orders keep the first/last variable in place
+            for order in case.get("perms_extra", []):
+                o = call(torch, model, mk_points(tp, torch, order, dims, coords, n)[0])
+                cr.counts.append(f"perm-extra:{len(order)}vars")
+                if not same_out(base, o, slack=slack):
+                    cr.fails.append(("same data with the variables in another order gives another output",
+                                     dict(desc, order_a=P["own"][0], order_b=order, coords=_coords(case), out_a=base.brief(), out_b=o.brief())))
+                    break
             # ---- several batch axes: if accepted, the rows are those of the flat batch
             o = outs["axes"]
             cr.counts.append("axes:" + ("accepted" if o.ok else o.err) + f":{len(case['shape2'])}d")
@@ -656,6 +675,8 @@ def run_case(case):
                 structure(tp, torch, cr, model, spec, pts, desc, case, slack)
         if case["idx"] % HISTORY_EVERY == 0 or case.get("force_history"):
             history(tp, torch, cr, model, spec, case)
+    if case["idx"] % 2 == 1 or case.get("force_history"):
+        extremes(tp, torch, cr, spec, case)
     return cr
 
 
@@ -817,6 +838,122 @@ def history(tp, torch, cr, model, spec, case):
                                      dict(where, presented_variables=order, declared=inS, output=o.brief())))
 
 
+LADDER = [0.0, 1e-3, 0.5, 1.0, 30.0, 300.0, 2e3, 1e5, 1e8, 1e13, 1e20, 1e30]
+LADDER64 = [1e40, 1e80, 1e110, 1e200]
+
+
+def _row_close(a, b, rtol, slack):
+    """one output row in two batch contexts; inf/nan patterns must agree"""
+    if len(a) != len(b):
+        return False
+    if slack == float("inf"):
+        return True
+    scale = max([abs(x) for x in a + b if x == x and abs(x) != float("inf")] + [0.0])
+    for x, y in zip(a, b):
+        fx, fy = x == x and abs(x) != float("inf"), y == y and abs(y) != float("inf")
+        if not fx or not fy:
+            if not ((x != x and y != y) or x == y):
+                return False
+        elif abs(x - y) > rtol * scale + slack + 1e-300:
+            return False
+    return True
+
+
+def extremes(tp, torch, cr, spec, case):
+    """Row independence where the main stream does not go: the library's default dtype float32 as well as float64, training
+    mode as well as evaluation mode (Lightning's validate/test/predict), autograd on or off, batches that mix magnitudes
+    0 ... 1e30 (float64: ... 1e200) so that some rows overflow to inf/nan next to ordinary rows.  Oracle (implementation
+    only): the answer to row i inside a batch does not change when the OTHER rows of the batch are replaced (zeros, ones,
+    a rotation of themselves, huge rows) or when the batch is arranged into two axes — same batch size and row position, so
+    the torch kernels take the same path; slack = 8 x the effect of a 256-ulp perturbation of row i itself in the same
+    batch (chaotic rows are skipped, and so are rows whose inf/nan pattern is not stable under that perturbation)."""
+    rng = random.Random(f"ext:{case['seed']}")
+    combos = [(d, t) for d in ("float32", "float64") for t in (False, True)]
+    rng.shuffle(combos)
+    chosen = combos[:2]
+    if all(t for _, t in chosen):
+        chosen[1] = (chosen[1][0], False)
+    for dtype_name, training in chosen:
+        dtype = getattr(torch, dtype_name)
+        grad = rng.random() < 0.3
+        torch.manual_seed(case["seed"])
+        try:
+            model = build(tp, torch, spec).to(dtype)
+        except (AssertionError, IndexError):
+            return
+        model.train(training)
+        inS = declared_in(model)
+        D = sum(d for _, d in inS)
+        space = mk_space(tp, inS)
+        n = rng.choice([4, 6, 8])
+        ladder = LADDER + (LADDER64 if dtype_name == "float64" else [])
+        mags = [rng.choice(ladder) for _ in range(n)]
+        mags[rng.randrange(n)] = rng.choice(ladder[-5:])          # at least one huge row ...
+        mags[rng.randrange(n)] = rng.choice([30.0, 300.0, 2e3])    # ... next to an ordinary one
+        X = torch.tensor([[m * rng.choice([-1, 1]) * rng.randint(16, 64) / 64 for _ in range(D)] for m in mags], dtype=dtype)
+        tag = f"ext:{dtype_name}:{'train' if training else 'eval'}"
+        cr.counts.append(tag)
+        rtol, eps = (1e-4, 2.0 ** -15) if dtype_name == "float32" else (1e-9, 2.0 ** -44)
+        P = tp.spaces.Points
+        with (torch.enable_grad() if grad else torch.no_grad()):
+            base = call(torch, model, P(X.clone(), space))
+            if not base.ok:
+                cr.counts.append(tag + ":" + base.err)
+                continue
+            cr.counts.append(("ext:nonfinite-rows", sum(1 for r in base.rows if not all(x == x and abs(x) != float("inf") for x in r))))
+            huge = torch.full((D,), ladder[-1], dtype=dtype)
+            for i in rng.sample(range(n), 3):
+                # conditioning of row i in this very batch
+                slack = 0.0
+                for sgn in (1.0, -1.0):
+                    Xp = X.clone()
+                    Xp[i] = X[i] * (1 + sgn * eps) + sgn * eps * 1e-3
+                    pert = call(torch, model, P(Xp, space))
+                    if not pert.ok:
+                        slack = float("inf")
+                        break
+                    for x, y in zip(base.rows[i], pert.rows[i]):
+                        fx, fy = x == x and abs(x) != float("inf"), y == y and abs(y) != float("inf")
+                        if fx and fy:
+                            slack = max(slack, 8.0 * abs(x - y))
+                        elif not ((x != x and y != y) or x == y):
+                            slack = float("inf")
+                if slack == float("inf"):
+                    cr.counts.append("ext:row-skipped")
+                    continue
+                others = [j for j in range(n) if j != i]
+                variants = {}
+                for name, fill in (("zeros", 0.0), ("ones", 1.0)):
+                    V = torch.full_like(X, fill)
+                    V[i] = X[i]
+                    variants[name] = V
+                V = X.clone()
+                V[others] = X[others[1:] + others[:1]]
+                variants["other rows rotated"] = V
+                V = X.clone()
+                V[others] = huge
+                variants["other rows huge"] = V
+                V = X.clone()
+                V[others[0]] = huge
+                variants["one other row huge"] = V
+                for name, V in variants.items():
+                    o = call(torch, model, P(V, space))
+                    cr.counts.append("ext:context")
+                    if not o.ok or not _row_close(base.rows[i], o.rows[i], rtol, slack):
+                        cr.fails.append((f"row {i} of a batch is answered differently when the OTHER rows are replaced ({name}); "
+                                         f"{dtype_name}, {'training' if training else 'evaluation'} mode",
+                                         dict(case=None, model=spec, torch_seed=case["seed"], dtype=dtype_name, training=training, autograd=grad,
+                                              declared=inS, batch=X.tolist(), other_batch=V.tolist(), row=i,
+                                              answer_in_batch=base.rows[i], answer_in_other_batch=(o.rows[i] if o.ok else o.brief()), slack=slack)))
+                        break
+                o = call(torch, model, P(X.clone().reshape(2, n // 2, D), space))
+                if o.ok and not (o.shape == [2, n // 2] and _row_close(base.rows[i], o.rows[i], rtol, slack)):
+                    cr.fails.append((f"row {i} is answered differently when the batch is arranged as (2, {n // 2}); {dtype_name}, "
+                                     f"{'training' if training else 'evaluation'} mode",
+                                     dict(model=spec, torch_seed=case["seed"], dtype=dtype_name, training=training, batch=X.tolist(), row=i,
+                                          flat=base.rows[i], arranged=o.brief())))
+
+
 def skeleton(spec):
     """model token with all-zero weights (for construction-time questions)"""
     a = spec["arch"]
@@ -899,6 +1036,36 @@ def judge(rep, cr, replies):
             rep.count(c)
 
 
+def options_of(spec):
+    """constructor options a case exercises (for the evidence histogram: what a run never hits is visible)"""
+    if spec["arch"] in ("seq", "par"):
+        out = [f"opt:{spec['arch']}:{min(len(spec['parts']), 3)}parts"]
+        for p in spec["parts"]:
+            out += options_of(p)
+        return out
+    a = spec["arch"]
+    out = []
+    if "gains" in spec:
+        out.append(f"opt:{a}:xavier_gains:" + ("list" if isinstance(spec["gains"], list) else "number"))
+    acts = spec.get("acts")
+    if acts is not None:
+        for x in ([acts] if _is_act(acts) else acts):
+            out.append("opt:activation:" + (x if isinstance(x, str) else x[0] + (":" + str(x[1]) if x[0] == "relun" else "")))
+        if a in ("fcn", "harm", "qres"):
+            out.append(f"opt:{a}:activations:" + ("single" if _is_act(acts) else "list"))
+    if a == "harm":
+        out.append(f"opt:harm:min_frequenz:{spec['minf']}")
+    if a == "poly":
+        out += [f"opt:poly:degree:{spec['deg']}", f"opt:poly:res_connection:{spec['res']}"]
+    if a == "ritz":
+        out.append(f"opt:ritz:depth:{spec['depth']}")
+    if a == "norm":
+        out += [f"opt:norm:domain:{d['kind']}" for d in spec["domain"]]
+    if "hidden" in spec:
+        out.append(f"opt:{a}:hidden_layers:{len(spec['hidden'])}")
+    return out
+
+
 def archs_of(spec):
     if spec["arch"] in ("seq", "par"):
         return [spec["arch"]] + [a for p in spec["parts"] for a in archs_of(p)]
@@ -932,6 +1099,8 @@ def run(ctx, rep, cases=None):
         case = cr.case
         for a in archs_of(case["spec"]):
             rep.count("arch:" + a)
+        for o in options_of(case["spec"]):
+            rep.count(o)
         rep.count(f"rows:{case['n']}")
         rep.count(f"vars:{len(case['dims'])}")
         rep.traces_validated += sum(1 for t, _ in cr.tags if t.startswith("apply:"))
